@@ -21,7 +21,7 @@ LEVEL_NOTE = "trusted: reference ledger and its calculators"
 
 
 def runs(tier, seed):
-    n = 30 if tier == "quick" else 600
+    n = 30 if tier == "quick" else 320
     return [Run("mempoolsim", cases=n, params={"class": "template", "mon": "template"}, timeout=3000 if tier == "quick" else 14000)]
 
 
